@@ -163,6 +163,15 @@ class Agent(object):
             raise AgentDied('agent protocol error: %r' % r[:200])
         return [[int(x) for x in t.split()] for t in r[3:].split('/')]
 
+    def repeat(self, n, cell, fn, unstable, *args, **kw):
+        """the same call n times inside the agent; returns dict(ok, fail, firstfailret, firstfailat, dups, first, last) - first / last /
+        dups describe the u32 result cell `cell` after the successful calls (must grow strictly); close=True: every descriptor
+        handed out is closed again at once"""
+        r = self._send('repeat %d %d %d %s %d %s' % (n, cell, 1 if kw.get('close') else 0, fn, 1 if unstable else 0, ' '.join(str(int(a)) for a in args))).split()
+        if not r or r[0] != 'rep':
+            raise AgentDied('agent protocol error: %r' % r[:6])
+        return dict(zip(('ok', 'fail', 'firstfailret', 'firstfailat', 'dups', 'first', 'last'), [int(x) for x in r[1:8]]))
+
     def res(self, clock):
         """clock_getres of the host clock behind WASI clock id `clock`, read in the agent process (ns)"""
         return int(self._send('res %d' % clock).split()[1])
